@@ -65,8 +65,10 @@ def cases(chk):
     yield "listlimit", {"kids": 65536}
     yield "listlimit", {"kids": 65537}
     yield "listlimit", {"attrs": 32768}
-    for w in ("xmlstreamstart@s.whatsapp.net", "1234@xmlstreamend", "a@xmlstreamstart@b"):
+    # the former known finding (reserved words inside JIDs), and the strings that used to be outside the domain: corpus
+    for w in ("xmlstreamstart@s.whatsapp.net", "1234@xmlstreamend", "a@xmlstreamstart@b", "xmlstreamstart", "xmlstreamend", "", "a@", "@", "@@"):
         yield "reserved-jid", {"tree": to_json(("iq", [("to", w)], None, []))}
+        yield "reserved-jid", {"tree": to_json(("iq", [(w, "v")], None, [(w or "x", [], None, [])]))}
     # --- every dictionary token, in three positions
     toks = g.tokens
     step = 40
@@ -267,7 +269,7 @@ def run_case(chk, stream, case):
 
 def _signature(stream, t, ik, iv):
     if stream == "reserved-jid":
-        return "C01:jid-component-is-reserved-word"
+        return "C01:jid-component-is-reserved-word"      # 'fixed' in known_findings.json: suppresses nothing
     if stream == "listlimit":
         return "C01:list-size>=65536-silently-truncated"
     hs = set(classify(t))
